@@ -32,6 +32,8 @@ def select_units(t, rng, limit):
         add(q, u)
     # base units of every base set + a few anchors
     for names in T.BASE_SETS.values():
+        if len(names) != len(t.base):
+            continue        # base tuples of another system (the harness' own 4-base system)
         for b, n in zip(t.base, names):
             add(t.qmap[b["name"]], t.unit(b["name"], n))
     for qm, un in (("length", "mile"), ("velocity", "kilometer_per_hour"), ("energy", "kilowatt_hour"),
